@@ -33,6 +33,10 @@ for r in sorted(set(rnd(m) for m in rows)):
                    "(R01h, R02g, R03g/h, R05i, R08f, R10g, R13d/e, R15h/i, R16g/h, R19e/f). The rate did not fall: each round finds\n"
                    "spellings the earlier ones did not (recursion for a loop, a release function returned by the acquiring function, a\n"
                    "table for an or-chain, a named deferred function, a single exit through a named result, two loops for one).\n")
+    elif r==4:
+        out.append("Round 4 met the checker after the repairs of round 3, several of which had replaced a matcher by an analysis\n"
+                   "(R03c on SSA, the containment engine of C17, the release-function idiom, path-by-path decisions). First time\n"
+                   "below a quarter.\n")
     out.append("\n| id | restructuring | alarms at first contact |\n|---|---|---|\n")
     for m in rs:
         a=', '.join(m.get('alarms_at_first_contact',[])) or '—'
